@@ -50,7 +50,7 @@ def bprobes(bname, leaves):
     for path, w in leaves:
         for k in range(w):
             t = Bref(bname, *path)
-            out.append(probe("pr_" + "_".join((bname,) + path) + f"_{k}", t if w == 1 else Slc(t, I(k))))
+            out.append(probe("pr_" + "Z".join((bname,) + path) + f"_{k}", t if w == 1 else Slc(t, I(k))))
     return out
 
 
